@@ -1,9 +1,9 @@
-(* C06 - Rolling back the latest change restores exactly the previous state (PROTOCOL part).
-   Statements only; proofs in Proofs/P2_Rollback.v.  Model: Model/Proto2.v (reconcileValidate / reconcileCommit of the
-   proposal reconciler, reconcileInitialize / reconcileValidate of the transaction reconciler).  The value-level half
-   ("restores exactly": commit_merge of the recorded rollback values undoes commit_merge of the change) belongs to the
-   merge layer and is proved / refuted there (C06_restore, C06_subtree_refuted of the merge builder); here the pure
-   layer is a parameter and every theorem holds for EVERY pure layer, every world, every oracle.
+(* C06 - Rolling back the latest change restores exactly the previous state.
+   PROTOCOL part (Section C06; proofs in Proofs/P2_Rollback.v; model Model/Proto2.v: reconcileValidate /
+   reconcileCommit of the proposal reconciler, reconcileInitialize / reconcileValidate of the transaction reconciler):
+   the pure layer is a parameter and every theorem holds for EVERY pure layer, every world, every oracle.
+   VALUE part (after the section; proofs in Proofs/P2PureRollback*.v; the concrete pure layer Model/P2Pure.v):
+   "restores exactly" - the commit of the rollback values recorded at validation undoes the commit of the change.
    [validating w t i P C] = the proposal is VALIDATING and its predecessor is committed; [initializing w i T] = the
    transaction is INITIALIZING, has no proposal list and is not held back by transaction i-1; [refused t i P f] = the
    single effect "proposal Validate FAILED with failure f"; [init_failed i T f] = the single effect "transaction
@@ -25,15 +25,50 @@
      C06_rollback_uses_recorded_values (a validated rollback proposal carries exactly RollbackIndex and
      RollbackValues of the proposal it rolls back), C06_rollback_commit_replays (its commit merges exactly those
      values and sets the configuration index to the recorded index; the resulting configuration).
-   PARTIAL / missing: these are single-invocation facts.  The reach-level statement "whenever a rollback proposal is
-   VALIDATED its recorded values equal those the change recorded when IT was validated" additionally needs: the
-   configuration index is only ever the index of a proposal that has finished validation (so the source fields are
-   frozen when they are copied).  That follows from the cursor / chain invariants (Committed.Index moves only by a
-   proposal's commit, commit only after VALIDATED) of the other builder's P2_Cursor* files and is not proved here. *)
+   * "restores exactly" (value level, UNBOUNDED: all stored maps, views, changes, all iteration orders ord1 / ord2 of
+     AddDeleteChildren's and reconcileCommit's loops, all orders of reconcileValidate's loop = the list order of ch):
+     C06_rollback_restores_values: rb = rollback_of vw ch recorded on the view vw of the stored map m, the change
+     committed (m1 = commit_merge ord1 i m vw ch), then the rollback values committed (m2 = commit_merge ord2 j m1
+     (overlay [] m1) rb) => live (overlay [] m2) = live vw (and live m2 = live vw): Get shows exactly the values it
+     showed before the change - overwritten values, values deleted together with everything beneath them, and no path
+     that did not exist before.  C06_rollback_restores_values_any_view: the same for ANY loaded views vw1, vw2 of m1,
+     m2 (same Go map, any list order).  Premise [rollback_wf i j m vw ch] (boolean, Proofs/P2PureRollbackBool.v):
+     keys unique; key = path of the value, never "" or "/"; vw is the same Go map as m (what Get loads when the
+     entry's inline copy is covered by the stored map); no LIVE value beneath a tombstone in vw; no update of ch
+     beneath a delete of ch (the excluded overlap is the open finding F-14); no update of ch has a live value of vw
+     beneath it (values live at leaves); ch is stamped with its transaction index i, stored indexes are < i,
+     0 < i < j.  Satisfiable: Example ex_wf (overwrite, delete of a list entry with leaves, new value beneath a
+     tombstone, leaf delete, new path, delete beneath a tombstone, delete of a tombstone, an inline copy); each of
+     clean / no-delete-above-update / updates-are-leaves is NEEDED (Examples clean_needed,
+     no_delete_above_update_needed, leaves_needed: the statement fails without it for some order).  Preserved:
+     C06_rollback_wf_preserved (the change's commit gives a well-formed stored map with nothing at all beneath a
+     tombstone and indexes < j; its empty-inline view is the same map), C06_rollback_wf_preserved_by_rollback (so
+     does the rollback's commit).
+   * the candidate the model plugin validates for the rollback: C06_rollback_restores_values_candidate_refuted -
+     live (candidate_rb vw1 rb) <> live vw for a well-formed input (stored {/a/c=1}, change = delete of the container
+     /a, any order): reconcileValidate's Rollback case overwrites the loaded values with the rollback values
+     (changeValues[path] = rollbackValue) without dropping the deleted ancestors, so the tombstone /a still covers the
+     restored /a/c and the plugin is shown the configuration WITHOUT the subtree that the commit then restores.
+     Reproduced on the real code (scripted history: set /a/c, delete /a, rollback: the plugin is shown {}; with a
+     second leaf /z whose validity depends on /a/c the rollback is refused INVALID although the restored configuration
+     is the one accepted before).  Proved instead: C06_rollback_candidate_shows_only_old (the candidate never shows
+     a value the old view did not show) and C06_rollback_restores_values_candidate_partial (it shows exactly the old
+     view under the extra named hypothesis [deletes_storedb vw ch]: every deleted path of ch is itself a stored value
+     or has no live value beneath it, i.e. the change deleted no non-empty container).  Missing for the full
+     statement: the repair of reconcileValidate (apply the rollback values with applyChangeToConfig).
+   PARTIAL / missing at protocol level: the protocol theorems are single-invocation facts.  The reach-level statement
+   "whenever a rollback proposal is VALIDATED its recorded values equal those the change recorded when IT was
+   validated" additionally needs: the configuration index is only ever the index of a proposal that has finished
+   validation (so the source fields are frozen when they are copied).  That follows from the cursor / chain invariants
+   (Committed.Index moves only by a proposal's commit, commit only after VALIDATED) of the other builder's P2_Cursor*
+   files and is not proved here.  The value-level theorems are about the pure functions; that the view loaded at
+   commit time is the one loaded at validation time, and that the entry's inline copy is covered by the stored map
+   (hypothesis sameb vw m), are protocol facts not proved here. *)
 From stdpp Require Import gmap.
 From RecordUpdate Require Import RecordUpdate.
 From Coq Require Import NArith.
 From OC Require Import Base.Bytes Model.P2Pure Model.Proto2 Model.P2Inst Proofs.P2Base Proofs.P2Phases Proofs.P2_Failure Proofs.P2_Crash Proofs.P2_Rollback.
+From OC Require Import Proofs.P2PureRollbackBool Proofs.P2PureRollbackEx.
 Open Scope N_scope.
 
 Section C06.
@@ -211,6 +246,78 @@ Section C06.
 
 End C06.
 
+(** Value level: the concrete pure layer Model/P2Pure.v *)
+
+(* rolling back restores exactly what Get showed, for every iteration order of every loop *)
+Theorem C06_rollback_restores_values :
+  forall (ord1 ord2 i j : N) (m vw ch : cmap),
+  rollback_wf i j m vw ch = true ->
+  let rb := rollback_of vw ch in
+  let m1 := commit_merge ord1 i m vw ch in
+  let vw1 := overlay nil m1 in
+  let m2 := commit_merge ord2 j m1 vw1 rb in
+  live (overlay nil m2) = live vw /\ live m2 = live vw.
+Proof. exact restores_values. Qed.
+
+(* ... for any loaded views of the stored maps (same Go map, any list order) *)
+Theorem C06_rollback_restores_values_any_view :
+  forall (ord1 ord2 i j : N) (m vw ch vw1 vw2 : cmap),
+  rollback_wf i j m vw ch = true ->
+  let rb := rollback_of vw ch in
+  let m1 := commit_merge ord1 i m vw ch in
+  nodupb vw1 = true -> sameb vw1 m1 = true ->
+  let m2 := commit_merge ord2 j m1 vw1 rb in
+  nodupb vw2 = true -> sameb vw2 m2 = true ->
+  live vw2 = live vw.
+Proof. exact restores_values_any_view. Qed.
+
+(* the hypotheses on the stored map are re-established by the change's commit ... *)
+Theorem C06_rollback_wf_preserved :
+  forall (ord i j : N) (m vw ch : cmap),
+  rollback_wf i j m vw ch = true ->
+  let m1 := commit_merge ord i m vw ch in
+  wfb m1 = true /\ cleanb m1 = true /\ prunedb m1 = true /\ olderb j m1 = true /\
+  sameb (overlay nil m1) m1 = true /\ wfb (overlay nil m1) = true /\ cleanb (overlay nil m1) = true.
+Proof. exact commit_preserves_wf. Qed.
+
+(* ... and by the rollback's commit *)
+Theorem C06_rollback_wf_preserved_by_rollback :
+  forall (ord1 ord2 i j : N) (m vw ch : cmap),
+  rollback_wf i j m vw ch = true ->
+  let rb := rollback_of vw ch in
+  let m1 := commit_merge ord1 i m vw ch in
+  let m2 := commit_merge ord2 j m1 (overlay nil m1) rb in
+  wfb m2 = true /\ cleanb m2 = true.
+Proof. exact rollback_commit_preserves_wf. Qed.
+
+(* the candidate validated for the rollback is NOT always the restored configuration (delete of a container) *)
+Theorem C06_rollback_restores_values_candidate_refuted :
+  exists (ord1 i j : N) (m vw ch : cmap),
+    rollback_wf i j m vw ch = true /\
+    live (candidate_rb (overlay nil (commit_merge ord1 i m vw ch)) (rollback_of vw ch)) <> live vw.
+Proof. exact candidate_statement_refuted. Qed.
+
+(* it never shows a value the old view did not show ... *)
+Theorem C06_rollback_candidate_shows_only_old :
+  forall (ord1 i j : N) (m vw ch : cmap),
+  rollback_wf i j m vw ch = true ->
+  let rb := rollback_of vw ch in
+  let m1 := commit_merge ord1 i m vw ch in
+  forall k val, In (k, val) (live (candidate_rb (overlay nil m1) rb)) -> In (k, val) (live vw).
+Proof. exact candidate_only_old. Qed.
+
+(* ... and exactly the old view when the change deleted no non-empty container.  PARTIAL: [deletes_storedb vw ch]
+   (every deleted path is itself stored or has no live value beneath it) is the extra hypothesis; without it the
+   statement is false (C06_rollback_restores_values_candidate_refuted) until reconcileValidate's Rollback case is
+   repaired *)
+Theorem C06_rollback_restores_values_candidate_partial :
+  forall (ord1 i j : N) (m vw ch : cmap),
+  rollback_wf i j m vw ch = true -> deletes_storedb vw ch = true ->
+  let rb := rollback_of vw ch in
+  let m1 := commit_merge ord1 i m vw ch in
+  live (candidate_rb (overlay nil m1) rb) = live vw.
+Proof. exact candidate_partial. Qed.
+
 Print Assumptions C06_refused_not_latest.
 Print Assumptions C06_refused_missing.
 Print Assumptions C06_refused_rollback_of_rollback.
@@ -223,3 +330,10 @@ Print Assumptions C06_refused_alters_nothing.
 Print Assumptions C06_change_records_rollback_values.
 Print Assumptions C06_rollback_uses_recorded_values.
 Print Assumptions C06_rollback_commit_replays.
+Print Assumptions C06_rollback_restores_values.
+Print Assumptions C06_rollback_restores_values_any_view.
+Print Assumptions C06_rollback_wf_preserved.
+Print Assumptions C06_rollback_wf_preserved_by_rollback.
+Print Assumptions C06_rollback_restores_values_candidate_refuted.
+Print Assumptions C06_rollback_candidate_shows_only_old.
+Print Assumptions C06_rollback_restores_values_candidate_partial.
